@@ -30,6 +30,7 @@ class Stats(object):
         self.feas_checks = 0
         self.feas_unknown = 0
         self.feas_s = 0.0
+        self.slow = []
 
 
 class Ctx(object):
@@ -91,7 +92,10 @@ class Ctx(object):
             r = self.solver.check()
         else:
             r = self.solver.check(f)
-        self.stats.feas_s += time.time() - t0
+        dt = time.time() - t0
+        self.stats.feas_s += dt
+        if dt > 0.5:
+            self.stats.slow.append((round(dt, 2), str(r), str(f)[:200]))
         if r == z3.unknown:
             self.stats.feas_unknown += 1
         return r != z3.unsat
@@ -176,6 +180,8 @@ class Ctx(object):
         if isinstance(goal, bool):
             goal = z3.BoolVal(goal)
         inf = {'trace': list(self.trace)}
+        if getattr(self, 'kf_terms', None) is not None:
+            inf['terms'] = self.kf_terms
         if info:
             inf.update(info)
         self.obligations.append(
